@@ -307,6 +307,38 @@ theorem alwaysPresentCheck_sound (p : Path) (fs : FS α) (t : List (Effect α))
       · exact h0
       · exact ih (step fs e) hrest hstep s hs
 
+/-! ### leftover bytes -/
+
+/-- `replacesFresh` is monotone: a trace that renames only fresh files into place when every doubtful path is
+    assumed stale does so for every directory a killed run can actually have left -/
+theorem replacesFresh_mono (t : List (Effect α)) (st st' : Stale)
+    (hle : ∀ p, st' p = true → st p = true) (h : replacesFresh st t = true) : replacesFresh st' t = true := by
+  induction t generalizing st st' with
+  | nil => simp [replacesFresh]
+  | cons e es ih =>
+    have hstep : ∀ e : Effect α, ∀ p, staleStep st' e p = true → staleStep st e p = true := by
+      intro e p
+      cases e <;> simp only [staleStep, Stale.set] <;>
+        (try exact hle p) <;> (repeat' split) <;> simp_all
+    cases e with
+    | replace s d =>
+      simp only [replacesFresh, Bool.and_eq_true, Bool.not_eq_true'] at h ⊢
+      refine ⟨?_, ih _ _ (hstep (.replace s d)) h.2⟩
+      cases hs : st' s with
+      | false => rfl
+      | true => have := hle s hs; simp [this] at h
+    | openW p => exact ih _ _ (hstep (.openW p)) (by simpa [replacesFresh] using h)
+    | openA p => exact ih _ _ (hstep (.openA p)) (by simpa [replacesFresh] using h)
+    | write p => exact ih _ _ (hstep (.write p)) (by simpa [replacesFresh] using h)
+    | flush p => exact ih _ _ (hstep (.flush p)) (by simpa [replacesFresh] using h)
+    | fsync p => exact ih _ _ (hstep (.fsync p)) (by simpa [replacesFresh] using h)
+    | close p c => exact ih _ _ (hstep (.close p c)) (by simpa [replacesFresh] using h)
+    | copyfile s d => exact ih _ _ (hstep (.copyfile s d)) (by simpa [replacesFresh] using h)
+    | unlink p => exact ih _ _ (hstep (.unlink p)) (by simpa [replacesFresh] using h)
+    | rmdir p => exact ih _ _ (hstep (.rmdir p)) (by simpa [replacesFresh] using h)
+    | mkdir p => exact ih _ _ (hstep (.mkdir p)) (by simpa [replacesFresh] using h)
+    | other p => exact ih _ _ (hstep (.other p)) (by simpa [replacesFresh] using h)
+
 /-! ### the readers -/
 
 theorem recover_internal_iff (fs : FS α) : recover fs = .internalError ↔ fs pCmdline = .torn := by
